@@ -146,7 +146,15 @@ func propC06(r *kernel.Run) {
 			req, _ := BuildFetch(sp)
 			var resp *types.FetchNodeCredentialsResponse
 			var err error
-			if p, msg, _ := kernel.Guard(func() { resp, err = registration.FetchNodeCredentials(w.Ctx, w.Storage, req, useOpts...) }); p {
+			// the server application may answer without persisting the node record itself (WithSkipStorage: it stores the
+			// record elsewhere); the token is used up all the same
+			skip := tp.Draw(8) == 0
+			fopts := useOpts
+			if skip {
+				fopts = append(append([]nodeenrollment.Option{}, useOpts...), nodeenrollment.WithSkipStorage(true))
+				r.Count("cfg.fetch_with_skip_storage", 1)
+			}
+			if p, msg, _ := kernel.Guard(func() { resp, err = registration.FetchNodeCredentials(w.Ctx, w.Storage, req, fopts...) }); p {
 				// reachable only through a tampered stored record (the storage wrapper's Decrypt on a damaged sealed blob):
 				// the statement asks that such a fetch fails and creates nothing, which a panic also does; counted, not judged
 				r.Count("probe.panic_on_tampered_sealed_record", 1)
@@ -159,6 +167,9 @@ func propC06(r *kernel.Run) {
 			ok := err == nil && resp != nil && len(resp.EncryptedNodeCredentials) > 0
 			created := len(after) > len(before)
 			desc := fmt.Sprintf("use t%d by %s age=%v max=%v enrolledBefore=%d storedBefore=%v transplanted=%v bitFlipped=%v nodeRegistered=%v wrapper=%v backend=%s", t.idx, n.Name, age, max, t.enrolled, storedBefore, t.broken, t.flipped, registered[n.KeyId], sw, backend)
+			if skip {
+				desc += " skipStorage=true"
+			}
 			note(desc + fmt.Sprintf(" -> ok=%v err=%s", ok, shortErr(err)))
 			r.Count("ops.use_token", 1)
 			switch {
@@ -186,13 +197,13 @@ func propC06(r *kernel.Run) {
 				}
 			default:
 				if age < max && !t.flipped && storedBefore {
-					if !ok || !created {
+					if !ok || (!created && !skip) {
 						r.Violate("token-works", "live-token-refused", "a fresh unused token was refused (err=%v): %s", shortErr(err), desc)
 					}
 				}
 				if ok {
 					t.enrolled++
-					registered[n.KeyId] = true
+					registered[n.KeyId] = created
 					if ni, lerr := types.LoadNodeInformation(w.Ctx, w.Inner, n.KeyId, w.Opts()...); lerr == nil {
 						if t.state != (ni.State != nil) {
 							r.Violate("token-works", "token-state-lost", "token state presence %v but record state presence %v: %s", t.state, ni.State != nil, desc)
